@@ -80,7 +80,7 @@ def Val.isBytes {α} : Val α → Bool
 inductive Loaded (α : Type) where
   | ok (v : Val α)
   | unpickling            -- raised a member of `pickler.UnpicklingError`
-  | attribute             -- raised AttributeError
+  | attrError             -- raised AttributeError
   | other                 -- raised anything else (it propagates out of `decode`)
   deriving DecidableEq, Repr
 
@@ -210,8 +210,15 @@ inductive Pre (α : Type) where
   | digit (n : Nat)       -- `value.isdigit()`: `int(value)`, no signature check
   | dflt                  -- SignIsMissingError
   | unsecure              -- UnSecureDataError
+  | custom (p : Bytes)    -- the signature verified and `p` is `registered type:…`: custom decoder, no unpickling (fix d1f0dd9)
   | loads (p : Bytes)     -- the signature verified: `pickler.loads(p)` is called
   deriving DecidableEq, Repr
+
+/-- `_is_custom_encoded`: `value.partition(b":")` has a separator and the part before it is a registered type -/
+def isCustomEncoded (cfg : Cfg α) (p : Bytes) : Bool :=
+  match splitFirst colon p with
+  | none => false
+  | some (tag, _) => (cfg.registry tag).isSome
 
 /-- first half of `decode` (up to and excluding `self._decode(value)`); `same` = `value is default` -/
 def preLoads (cfg : Cfg α) (key : Bytes) (w : Val α) (same : Bool) : Pre α :=
@@ -222,7 +229,7 @@ def preLoads (cfg : Cfg α) (key : Bytes) (w : Val α) (same : Bool) : Pre α :=
       else match checkSign cfg key b with
         | .missing => .dflt
         | .unsecure => .unsecure
-        | .ok p => .loads p
+        | .ok p => if isCustomEncoded cfg p then .custom p else .loads p
     | v => .pass v
 
 /-- `_custom_decode` -/
@@ -240,7 +247,7 @@ def customDecode (cfg : Cfg α) (b : Bytes) : Res α :=
 /-- second half of `decode`, given what `loads p` did -/
 def postLoads (cfg : Cfg α) (p : Bytes) (r : Loaded α) : Res α :=
   match r with
-  | .attribute => .dflt
+  | .attrError => .dflt
   | .other => .raised
   | .unpickling => customDecode cfg p
   | .ok (.bytes b) => customDecode cfg b
@@ -254,6 +261,7 @@ def decode (cfg : Cfg α) (key : Bytes) (w : Val α) (same : Bool) : Res α :=
   | .digit n => .value (.int n)
   | .dflt => .dflt
   | .unsecure => .unsecure
+  | .custom p => customDecode cfg p
   | .loads p => postLoads cfg p (cfg.pickler.loads p)
 
 /-! ### what `hexdigest().encode()` and `f"{s:x}".encode()` look like -/
